@@ -132,4 +132,41 @@ mod verif_kani_metric_formulas {
         if s < 1.0 { assert!(m >= s && m <= 1.0); }
         kani::cover!(true);
     }
+
+    static mut BQDOT: f32 = 0.0;
+    fn stub_bq_dot(_u: &UnalignedVector<crate::unaligned_vector::BinaryQuantized>, _v: &UnalignedVector<crate::unaligned_vector::BinaryQuantized>) -> f32 { unsafe { BQDOT } }
+    /// Binary-quantised Cosine (C12): whatever the rounding of the header norms, the reported distance is in [0, 1]; in
+    /// particular never negative when the inner product exceeds, by rounding, the product of the norms; it is 0 when a norm vanishes
+    #[kani::proof]
+    #[kani::stub(crate::spaces::simple::dot_product_binary_quantized, stub_bq_dot)]
+    fn bq_cosine_is_in_the_unit_interval() {
+        let pn: f32 = kani::any(); let qn: f32 = kani::any(); let pq: f32 = kani::any();
+        kani::assume(pn.is_finite() && qn.is_finite() && pn >= 0.0 && qn >= 0.0 && pq.is_finite() && (pn * qn).is_finite());
+        unsafe { BQDOT = pq; }
+        static BYTES: [u8; 8] = [0u8; 8];
+        let v: &UnalignedVector<crate::unaligned_vector::BinaryQuantized> = UnalignedVector::from_bytes_unchecked(&BYTES);
+        let p: Leaf<BinaryQuantizedCosine> = Leaf { header: bytemuck::cast::<f32, NodeHeaderBinaryQuantizedCosine>(pn), vector: Cow::Borrowed(v) };
+        let q: Leaf<BinaryQuantizedCosine> = Leaf { header: bytemuck::cast::<f32, NodeHeaderBinaryQuantizedCosine>(qn), vector: Cow::Borrowed(v) };
+        let d = BinaryQuantizedCosine::built_distance(&p, &q);
+        assert!(d >= 0.0 && d <= 1.0);
+        if pn * qn == 0.0 { assert!(d == 0.0); }
+        assert!(BinaryQuantizedCosine::normalized_distance(d, 65).to_bits() == d.to_bits());
+        kani::cover!(true);
+    }
+
+    /// the concrete case behind finding F9: 65 dimensions are padded to 128, both norms are sqrt(128) (rounded), the inner
+    /// product of a vector with itself is 128: the distance must be exactly 0
+    #[kani::proof]
+    #[kani::stub(crate::spaces::simple::dot_product_binary_quantized, stub_bq_dot)]
+    fn bq_cosine_self_distance_is_zero_at_d65() {
+        unsafe { BQDOT = 128.0; }
+        static BYTES: [u8; 8] = [0u8; 8];
+        let v: &UnalignedVector<crate::unaligned_vector::BinaryQuantized> = UnalignedVector::from_bytes_unchecked(&BYTES);
+        let h = BinaryQuantizedCosine::new_header(v);
+        let p: Leaf<BinaryQuantizedCosine> = Leaf { header: h, vector: Cow::Borrowed(v) };
+        let q: Leaf<BinaryQuantizedCosine> = Leaf { header: h, vector: Cow::Borrowed(v) };
+        let d = BinaryQuantizedCosine::built_distance(&p, &q);
+        assert!(d == 0.0);
+        kani::cover!(true);
+    }
 }
